@@ -1,8 +1,8 @@
 SPECIFICATION Spec
 CONSTANTS
   MaxObjs = 2
-  UIds <- UAll
-  RowSet <- RowsPairwise
+  UIds <- UMid
+  RowSet <- RowsAll
   AllowDup = FALSE
   DedupInput = FALSE
   OfsPlain = FALSE
